@@ -6,6 +6,7 @@ import NodisVerif.Model.Handler3
 import NodisVerif.Driver.FragOps
 import NodisVerif.Driver.ProtoOps
 import NodisVerif.Driver.LinkedListOps
+import NodisVerif.Driver.RespWriterOps
 import NodisVerif.Model.Feed
 open NodisVerif
 
@@ -18,6 +19,7 @@ structure DState where
   feeds : List (String × List FeedOp) := []      -- per watched instance: records not yet drained (oldest first)
   patterns : List Bytes := []                    -- patterns of the second (filtered) watcher
   ll : LinkedList.PList := {}                    -- the bare pointer-level list of the `ll` lines (C02)
+  wr : RespWriter.Writer := RespWriter.new       -- the bare RESP reply writer of the `wr` lines (C16)
 
 def DState.sv (d : DState) : Server := ((d.inst.find? (·.1 == d.cur)).map (·.2)).getD {}
 def DState.putSv (d : DState) (sv : Server) : DState :=
@@ -42,6 +44,12 @@ def step (d : DState) (line : String) : DState × String :=
   | "ck" :: _ | "dk" :: _ | "ev" :: _ => (d, Driver.codecOp toks)
   | "frag" :: rest => (d, Driver.fragOp rest)
   | "ll" :: rest => let (l, out) := Driver.llOp d.ll rest; ({ d with ll := l }, out)
+  | "wr" :: rest =>
+    -- take the writer out of the state first, so that the model's buffer is updated in place
+    let w := d.wr
+    let d := { d with wr := ⟨#[], 0, false, #[]⟩ }
+    let (w', out) := Driver.wrOp w rest
+    ({ d with wr := w' }, out)
   | "pev" :: rest => let (p, out) := Driver.protoOp d.proto rest; ({ d with proto := p }, out)
   | "bev" :: rest => let (b, out) := Driver.blockOp d.block rest; ({ d with block := b }, out)
   | "gev" :: rest => let (g, out) := Driver.gateOp d.gate rest; ({ d with gate := g }, out)
